@@ -366,7 +366,14 @@ fn zoo_args(rng: &mut Rng, d: &DeclSpec) -> Vec<Vec<u8>> {
         }
         R::ZStrB | R::ZHStrB | R::ZSStrB => vec![utf8_blk(rng, 10)],
         R::ZBlk => {
-            let p = gen::special_blk_payload(rng, 16, true);
+            // mostly short payloads; sometimes lengths around the powers of ten, where the
+            // number of length digits in the block header changes
+            let max = match rng.below(12) {
+                0 => return vec![block(&vec![b'a'; *rng.pick(&[9usize, 10, 11, 99, 100, 101, 109, 110])], 0)],
+                1 => 130,
+                _ => 16,
+            };
+            let p = gen::special_blk_payload(rng, max, true);
             let pad = if rng.chance(1, 5) { rng.below(4) } else { 0 };
             vec![block(&p, pad)]
         }
